@@ -17,17 +17,24 @@ REQUIRED = ['rr_def', 'rd_def', 'or_def', 'nnt_def', 'nnt_limits', 'irr_def', 'i
             'personTime_complete', 'riskratio_level_generated', 'riskdifference_level_generated', 'nnt_level_generated',
             'oddsratio_level_generated', 'irr_level_generated', 'ird_level_generated', 'risk_level_generated',
             'rate_level_generated', 'missing_generated', 'frame_generated_eq_counts',
+            # round 4: a row with person-time 0 is an event of its group and adds no person-time; the reference
+            'events_indep_time', 'personTime_zero_rows', 'reference_is_a_level',
             # Props/C07_Diag.lean: Sensitivity / Specificity / Diagnostics (Gen/Diag.lean)
             'sensitivity_fit_generated', 'specificity_fit_generated', 'diagnostics_fit_generated', 'diag_complete_rows',
             'sensitivity_class_value', 'specificity_class_value', 'sensitivity_class_not_textbook',
             'specificity_class_not_textbook']
 RULE = ('count tables: exhaustive over cells 1..B (B=5 quick, 9 thorough) for the six 4-argument calculators, plus a '
-        'malformed stream (zero / negative cells in every position) and random large tables; frames: random data '
-        'frames with 2-4 exposure levels, every reference level, random missingness in exposure/outcome/time. '
+        'malformed stream (zero / negative cells in every position), random large tables and non-integer tables '
+        '(cells + 1/2, weighted counts with 1-3 decimals, cells below 1, partly fractional tables; fractional events '
+        'and person-time for the rate measures); frames: random data frames with 2-4 exposure levels drawn from '
+        'whole-number or fractional / negative category values, the reference handed over as int / float / numpy '
+        'scalar (and, one time in ten, a value that is no level), person-time strictly positive, with rows of exactly '
+        '0, or whole-number, random missingness in exposure/outcome/time. '
         'distinct = distinct (function, arguments) or (class, frame hash); non-trivial = all four cells differ from '
         'each other or the frame has >= 1 missing value')
 ASSUMPTIONS = ['scipy.stats.norm.ppf supplies the normal quantile (enters the model as a table entry at 1-alpha/2)',
-               'person-time zero is outside the property (positive person-time); not judged']
+               'a GROUP whose total person-time is zero is outside the property (positive person-time); not judged.  '
+               'Single rows with a recorded person-time of 0 are ordinary input (the group total stays positive)']
 
 FOUR = ['risk_ratio', 'risk_difference', 'number_needed_to_treat', 'odds_ratio']
 RATE = ['incidence_rate_ratio', 'incidence_rate_difference']
@@ -76,6 +83,8 @@ def check_table(chk, drv, fn, args, alpha, z):
         chk.count('person_time_zero_not_judged')
         return
     chk.d((res[0] == 'err') == bad, 'rejects iff some count <= 0 (%s)' % fn, case)
+    # a table of positive counts (and positive person-time) has a textbook value: dividing by zero on it is a failure
+    chk.d(bad or res[0] != 'zerodiv', '%s returns its measure for a table of positive counts' % fn, case)
     # ---- K: model vs implementation
     if drv is not None:
         kw = dict(fn=fn, a=fx(args[0]), b=fx(args[1]), c=fx(args[2]), d=fx(args[3]), alpha=fx(alpha),
@@ -114,6 +123,55 @@ def check_table(chk, drv, fn, args, alpha, z):
               dict(case, want_limits=[lo, hi], z=z))
 
 
+def check_acr_paf(chk, drv, a, b, c, d):
+    """attributable community risk / population attributable fraction = textbook definition (exact rationals)"""
+    import zepid.calc.utils as cu
+    fa, fb, fc, fd = map(Fraction, (a, b, c, d))
+    for fn in ('attributable_community_risk', 'population_attributable_fraction'):
+        if min(a, b, c, d) <= 0:
+            try:
+                getattr(cu, fn)(a, b, c, d)
+                rej = False
+            except ValueError:
+                rej = True
+            except ZeroDivisionError:
+                rej = False
+            chk.case(None)
+            chk.d(rej, '%s rejects non-positive count' % fn, {'fn': fn, 'args': [a, b, c, d]})
+            continue
+        got = float(getattr(cu, fn)(a, b, c, d))
+        rt, r0 = (fa + fc) / (fa + fb + fc + fd), fc / (fc + fd)
+        want = rt - r0 if fn.startswith('attr') else (rt - r0) / rt
+        case = {'fn': fn, 'args': [a, b, c, d]}
+        chk.case(case, (fn, a, b, c, d))
+        chk.d(close(got, float(want), rtol=1e-12, atol=1e-15), '%s = textbook definition' % fn, case)
+        if drv is not None:
+            rep, _ = drv.ask('calc', fn=fn, a=fx(a), b=fx(b), c=fx(c), d=fx(d), alpha=fx(0.05), px=fx(0.975),
+                             pz=fx(float(norm.ppf(0.975))))
+            chk.k(rep['status'] == 'ok' and close(unfx(rep['value']), got, rtol=1e-12, atol=1e-15),
+                  'calc %s model vs impl' % fn, {'case': case, 'model': rep})
+
+
+def gen_fractional_table(rng, i):
+    """non-integer counts are documented input of the count functions ("integer, float"): continuity-corrected
+    tables (every cell + 1/2, Haldane-Anscombe), weighted counts with one to three decimals, counts below 1, and tables
+    in which only some cells are fractional"""
+    kind = i % 4
+    if kind == 0:
+        cells = [int(x) + 0.5 for x in rng.integers(0, 40, size=4)]
+    elif kind == 1:
+        cells = [float(x) for x in np.round(rng.uniform(0.05, 60, size=4), int(rng.integers(1, 4)))]
+    elif kind == 2:
+        cells = [float(x) for x in np.round(rng.uniform(0.05, 0.99, size=4), 2)]
+        j = int(rng.integers(0, 4))
+        cells[j] = float(np.round(rng.uniform(1, 30), 1))
+    else:
+        cells = [int(x) + float(rng.choice([0.0, 0.25, 0.5, 0.75, 0.9])) for x in rng.integers(1, 200, size=4)]
+        if all(float(x).is_integer() for x in cells):
+            cells[int(rng.integers(0, 4))] += 0.5
+    return tuple(max(c, 0.01) for c in cells)
+
+
 def relations(chk, a, b, c, d, alpha):
     """swap / transpose relations on the implementation's own outputs"""
     for fn, kind in (('risk_ratio', 'inv'), ('risk_difference', 'neg'), ('odds_ratio', 'inv')):
@@ -144,16 +202,32 @@ CLASSES = {'RR': ('RiskRatio', 'RiskRatio', 'SD(RR)', 'RR_LCL', 'RR_UCL', 'risk_
                    'incidence_rate_difference')}
 
 
+INT_POOL = [0, 1, 2, 3, 5, 8, 9, 10, 16, 17, 20, 33, 40]
+# dose-like codings: fractional and negative levels (every value is a multiple of 1/4, so exactly representable)
+FRAC_POOL = [-2, -1, -0.5, 0, 0.25, 0.5, 1, 1.5, 2, 2.5, 7.75, 10.5]
+
+
 def gen_frame(rng, big=False):
+    """-> (frame, levels, kinds).  kinds = {'levels': 'int' | 'frac', 'time': 'pos' | 'zeros' | 'whole'}:
+    'frac' draws exposure levels from FRAC_POOL (fractional / negative category values); 'zeros' gives 5-25% of the rows
+    a recorded person-time of exactly 0 (event on the enrolment day), 'whole' whole-number times 0..10 (zeros included)"""
     nlev = int(rng.integers(2, 5))
+    lk = 'frac' if rng.uniform() < 0.4 else 'int'
+    tk = str(rng.choice(['pos', 'zeros', 'whole'], p=[0.4, 0.4, 0.2]))
     # level codes whose set-iteration (hash) order differs from ascending order are included on purpose
-    pool = np.array([0, 1, 2, 3, 5, 8, 9, 10, 16, 17, 20, 33, 40])
+    pool = np.array(INT_POOL if lk == 'int' else FRAC_POOL, dtype=float)
     levels = sorted(rng.choice(pool, size=nlev, replace=False).tolist())
     n = int(rng.integers(30, 200 if big else 90))
-    e = rng.choice(levels, size=n).astype(float)
-    base = rng.uniform(0.25, 0.75, size=41)
-    d = (rng.uniform(size=n) < base[e.astype(int)]).astype(float)
-    t = np.round(rng.uniform(0.5, 10, size=n), 2)
+    code = rng.integers(0, nlev, size=n)
+    e = np.array(levels, dtype=float)[code]
+    base = rng.uniform(0.25, 0.75, size=nlev)
+    d = (rng.uniform(size=n) < base[code]).astype(float)
+    if tk == 'whole':
+        t = rng.integers(0, 11, size=n).astype(float)
+    else:
+        t = np.round(rng.uniform(0.5, 10, size=n), 2)
+        if tk == 'zeros':
+            t[rng.uniform(size=n) < rng.uniform(0.05, 0.25)] = 0.0
     pm = rng.choice([0.0, 0.1, 0.3])
     for arr in (e, d, t):
         arr[rng.uniform(size=n) < pm * rng.uniform()] = np.nan
@@ -162,16 +236,33 @@ def gen_frame(rng, big=False):
     e[both] = np.nan
     d[both] = np.nan
     idx = rng.permutation(n) + int(rng.integers(0, 50)) if rng.uniform() < 0.5 else np.arange(n)
-    return pd.DataFrame({'exp': e, 'dis': d, 't': t}, index=idx), levels
+    return pd.DataFrame({'exp': e, 'dis': d, 't': t}, index=idx), levels, {'levels': lk, 'time': tk}
+
+
+REF_TYPES = {'int': int, 'float': float, 'np.int64': np.int64, 'np.float64': np.float64}
+
+
+def gen_reference(rng, present):
+    """-> (value, type name): one of the observed levels handed over as a Python int / float or a numpy scalar (an
+    integer type only for a whole-number level); with probability 0.1 a value that is NOT a level (the level next to it
+    on the quarter grid), which `fit` must refuse"""
+    v = float(present[int(rng.integers(0, len(present)))])
+    if rng.uniform() < 0.1:
+        cand = [v + s for s in (0.5, -0.5, 0.25, 1.0, -1.0, 3.0) if v + s not in present]
+        v = float(cand[int(rng.integers(0, len(cand)))])
+    names = ['float', 'np.float64'] + (['int', 'np.int64'] if v.is_integer() else [])
+    return v, str(rng.choice(names))
 
 
 def enc_opt(xs, f):
     return ','.join('_' if (x is None or (isinstance(x, float) and math.isnan(x))) else f(x) for x in xs) or '[]'
 
 
-def check_frame(chk, drv, cls, df, ref, alpha, z, positional=False):
+def check_frame(chk, drv, cls, df, ref, alpha, z, positional=False, ref_type=None, kinds=None):
     import zepid
     name, col, sdcol, lcl, ucl, fn = CLASSES[cls]
+    if ref_type is not None:        # the reference category in the container type the caller used
+        ref = REF_TYPES[ref_type](ref)
     # the documented signature is (reference=0, alpha=0.05): options given by position or by keyword mean the same
     obj = getattr(zepid, name)(ref, alpha) if positional else getattr(zepid, name)(reference=ref, alpha=alpha)
     rate = cls in ('IRR', 'IRD')
@@ -186,12 +277,17 @@ def check_frame(chk, drv, cls, df, ref, alpha, z, positional=False):
     except ZeroDivisionError:
         impl = ('zerodiv', None)
     nmiss = int(df[['exp', 'dis']].isna().any(axis=1).sum())
-    case = {'cls': cls, 'ref': ref, 'alpha': alpha, 'n': len(df), 'missing_rows': nmiss,
+    case = {'cls': cls, 'ref': float(ref) if isinstance(ref, (float, np.floating)) else int(ref),
+            'ref_type': ref_type, 'kinds': kinds, 'alpha': alpha, 'n': len(df), 'missing_rows': nmiss,
             'constructed': 'positional' if positional else 'keywords',
-            'frame': df.reset_index().to_dict(orient='list') if len(df) <= 60 else 'n=%d (see seed)' % len(df)}
-    chk.case(case, (cls, ref, alpha, hash(df.to_csv())) if nmiss else None,
+            'frame': df.reset_index().to_dict(orient='list') if len(df) <= 250 else 'n=%d (see seed)' % len(df)}
+    chk.case(case, (cls, float(ref), alpha, hash(df.to_csv())) if nmiss else None,
              sample={k: v for k, v in case.items() if k != 'frame'} if chk.evals % 41 == 0 else None)
     chk.count('frame_' + cls)
+    if kinds is not None and cls == 'RR':
+        chk.count('frame_levels_' + kinds['levels'])
+        chk.count('frame_time_' + kinds['time'])
+        chk.count('frame_ref_' + str(ref_type))
     # independent cross-tabulation on complete rows
     cc = df.dropna(subset=['exp', 'dis'])
     levels = sorted(set(df['exp'].dropna().unique()))
@@ -204,20 +300,26 @@ def check_frame(chk, drv, cls, df, ref, alpha, z, positional=False):
         return float(cc.loc[cc['exp'] == l, 't'].sum())
     # ---- D: results equal the count function on that cross-tabulation
     expect = {}
-    expect_err = ref not in levels
-    for l in others:
-        args = (cnt(l, 1), cnt(ref, 1), pt(l), pt(ref)) if rate else (cnt(l, 1), cnt(l, 0), cnt(ref, 1), cnt(ref, 0))
-        r = impl_call(fn, args, alpha)
-        if r[0] != 'ok':
-            expect_err = True
-        expect[l] = r
-    if impl[0] == 'zerodiv' or any(r[0] == 'zerodiv' for r in expect.values()):
-        chk.discard('person-time or group size zero (outside the property)')
-        return
-    if not rate and (cnt(ref, 1) + cnt(ref, 0) == 0 or any(cnt(l, 1) + cnt(l, 0) == 0 for l in others)):
-        chk.discard('empty exposure group')
-        return
-    chk.d((impl[0] == 'err') == expect_err, '%s.fit raises iff the count function rejects a table' % name, case)
+    absent = ref not in levels       # `reference` names no observed category: fit must refuse (nothing to compare with)
+    expect_err = absent
+    if not absent:
+        for l in others:
+            args = (cnt(l, 1), cnt(ref, 1), pt(l), pt(ref)) if rate else \
+                (cnt(l, 1), cnt(l, 0), cnt(ref, 1), cnt(ref, 0))
+            r = impl_call(fn, args, alpha)
+            if r[0] != 'ok':
+                expect_err = True
+            expect[l] = r
+        if impl[0] == 'zerodiv' or any(r[0] == 'zerodiv' for r in expect.values()):
+            chk.discard('person-time or group size zero (outside the property)')
+            return
+        if not rate and (cnt(ref, 1) + cnt(ref, 0) == 0 or any(cnt(l, 1) + cnt(l, 0) == 0 for l in others)):
+            chk.discard('empty exposure group')
+            return
+    else:
+        chk.count('frame_reference_absent')
+    chk.d((impl[0] == 'err') == expect_err, '%s.fit raises iff the count function rejects a table%s'
+          % (name, ' (here: the reference is not an observed level)' if absent else ''), case)
     if impl[0] == 'ok' and not expect_err:
         res = impl[1]
         ok = True
@@ -236,10 +338,15 @@ def check_frame(chk, drv, cls, df, ref, alpha, z, positional=False):
         med = int((df['exp'].isna() & df['dis'].isna()).sum())
         chk.d((obj._missing_e, obj._missing_d, obj._missing_ed) == (me, md, med) and me + md + med + len(cc) == len(df),
               '%s missing-data counters partition the rows' % name, case)
-    # ---- K: model vs implementation
+    # ---- K: model vs implementation.  The model's categories are natural numbers: the observed levels (and the
+    # reference) are handed over by rank, an order-preserving one-to-one recoding (the classes only ever test a level
+    # for equality, and the model lists the levels in ascending order)
     if drv is not None:
-        kw = dict(cls=cls, ref=int(ref), alpha=fx(alpha), px=fx(1 - alpha / 2), pz=fx(z),
-                  e=enc_opt(df['exp'].tolist(), lambda v: str(int(v))),
+        ranked = sorted(set(float(l) for l in levels) | {float(ref)})
+        code = {v: i for i, v in enumerate(ranked)}
+        label = {i: str(np.float64(v)) for v, i in code.items()}
+        kw = dict(cls=cls, ref=code[float(ref)], alpha=fx(alpha), px=fx(1 - alpha / 2), pz=fx(z),
+                  e=enc_opt(df['exp'].tolist(), lambda v: str(code[float(v)])),
                   d=enc_opt(df['dis'].tolist(), lambda v: str(int(v))))
         if rate:
             kw['t'] = enc_opt(df['t'].tolist(), fx)
@@ -251,18 +358,18 @@ def check_frame(chk, drv, cls, df, ref, alpha, z, positional=False):
             if ok:
                 res = impl[1]
                 lv = dec_list(rep['levels'], int)
-                ok = [str(float(l)) for l in lv] == sorted([i for i in res.index if not i.startswith('Ref:')], key=float)
+                ok = [label[l] for l in lv] == sorted([i for i in res.index if not i.startswith('Ref:')], key=float)
                 for key, c in (('point', col), ('lower', lcl), ('upper', ucl), ('se', sdcol)):
                     vals = dec_list(rep[key], unfx)
                     for l, v in zip(lv, vals):
-                        ok = ok and close(res.loc[str(float(l)), c], v, rtol=1e-11)
+                        ok = ok and label[l] in res.index and close(res.loc[label[l], c], v, rtol=1e-11)
                 ok = ok and (int(rep['me']), int(rep['md']), int(rep['med'])) == \
                     (obj._missing_e, obj._missing_d, obj._missing_ed)
                 if cls == 'RD':
                     ok = ok and int(rep['n']) == obj.n
                     for key, c in (('frl', 'LowerBound'), ('fru', 'UpperBound')):
                         for l, v in zip(lv, dec_list(rep[key], unfx)):
-                            ok = ok and close(res.loc[str(float(l)), c], v, rtol=1e-11, atol=1e-14)
+                            ok = ok and close(res.loc[label[l], c], v, rtol=1e-11, atol=1e-14)
         chk.k(ok, 'frame %s model vs impl' % cls, {'case': case, 'model': rep})
 
 
@@ -291,17 +398,8 @@ def run(chk, drv, rng, tier):
                 for fn in FOUR + ['attributable_community_risk', 'population_attributable_fraction']:
                     if fn in FOUR:
                         check_table(chk, drv, fn, tuple(args), 0.05, zs[0.05])
-                    else:
-                        import zepid.calc.utils as cu
-                        try:
-                            getattr(cu, fn)(*args)
-                            rej = False
-                        except ValueError:
-                            rej = True
-                        except ZeroDivisionError:
-                            rej = False
-                        chk.case(None)
-                        chk.d(rej, '%s rejects non-positive count' % fn, {'fn': fn, 'args': args})
+                    elif fn == 'attributable_community_risk':
+                        check_acr_paf(chk, drv, *args)          # (both functions)
                 for fn in RATE:
                     if pos < 2:
                         check_table(chk, drv, fn, tuple(args), 0.05, zs[0.05])
@@ -310,21 +408,8 @@ def run(chk, drv, rng, tier):
                         a2[pos] = -abs(badv) - 1
                         check_table(chk, drv, fn, tuple(a2), 0.05, zs[0.05])
     # ACR / PAF definitions and K
-    import zepid.calc.utils as cu
     for _ in range(60 if tier == 'quick' else 400):
-        a, b, c, d = (int(x) for x in rng.integers(1, 400, size=4))
-        for fn in ('attributable_community_risk', 'population_attributable_fraction'):
-            got = float(getattr(cu, fn)(a, b, c, d))
-            rt, r0 = Fraction(a + c, a + b + c + d), Fraction(c, c + d)
-            want = rt - r0 if fn.startswith('attr') else (rt - r0) / rt
-            case = {'fn': fn, 'args': [a, b, c, d]}
-            chk.case(case, (fn, a, b, c, d))
-            chk.d(close(got, float(want), rtol=1e-12, atol=1e-15), '%s = textbook definition' % fn, case)
-            if drv is not None:
-                rep, _ = drv.ask('calc', fn=fn, a=fx(a), b=fx(b), c=fx(c), d=fx(d), alpha=fx(0.05), px=fx(0.975),
-                                 pz=fx(zs[0.05]))
-                chk.k(rep['status'] == 'ok' and close(unfx(rep['value']), got, rtol=1e-12, atol=1e-15),
-                      'calc %s model vs impl' % fn, {'case': case, 'model': rep})
+        check_acr_paf(chk, drv, *(int(x) for x in rng.integers(1, 400, size=4)))
     # random large tables
     for _ in range(100 if tier == 'quick' else 1500):
         a, b, c, d = (int(x) for x in rng.integers(1, 5000, size=4))
@@ -334,15 +419,32 @@ def run(chk, drv, rng, tier):
         for fn in RATE:
             check_table(chk, drv, fn, (a, b, float(c) + 0.5, float(d) + 0.25), alpha, zs[alpha])
         relations(chk, a, b, c, d, alpha)
+    # non-integer counts (round 4): every predicate of the integer stream on fractional tables
+    for i in range(80 if tier == 'quick' else 1200):
+        a, b, c, d = gen_fractional_table(rng, i)
+        alpha = float(rng.choice([0.05, 0.1, 0.01, 0.5]))
+        chk.count('fractional_table')
+        for fn in FOUR:
+            check_table(chk, drv, fn, (a, b, c, d), alpha, zs[alpha])
+        for fn in RATE:         # fractional (weighted) event counts and person-time
+            check_table(chk, drv, fn, (a, b, float(c) * 1.5 + 0.25, float(d) * 2.25 + 0.5), alpha, zs[alpha])
+        relations(chk, a, b, c, d, alpha)
+        check_acr_paf(chk, drv, a, b, c, d)
     # frames
-    for i in range(40 if tier == 'quick' else 400):
-        df, levels = gen_frame(rng, big=(tier == 'thorough'))
+    for i in range(60 if tier == 'quick' else 500):
+        df, levels, kinds = gen_frame(rng, big=(tier == 'thorough'))
         alpha = float(rng.choice([0.05, 0.1]))
         present = sorted(set(df['exp'].dropna().unique()))
-        refs = present if tier == 'thorough' else [present[int(rng.integers(0, len(present)))]]
-        for ref in refs:
+        if tier == 'thorough':
+            refs = [(float(v), str(rng.choice(['float', 'np.float64'] + (['int', 'np.int64'] if float(v).is_integer()
+                                                                     else [])))) for v in present]
+            refs.append(gen_reference(rng, present))
+        else:
+            refs = [gen_reference(rng, present)]
+        for ref, ref_type in refs:
             for cls in CLASSES:
-                check_frame(chk, drv, cls, df, int(ref), alpha, zs[alpha], positional=bool(rng.integers(0, 2)))
+                check_frame(chk, drv, cls, df, ref, alpha, zs[alpha], positional=bool(rng.integers(0, 2)),
+                            ref_type=ref_type, kinds=kinds)
     calc2.stream_c07(chk, drv, rng, tier)
 
 
@@ -360,6 +462,8 @@ def replay(rec):
         if isinstance(c.get('replay'), dict):
             with common.quiet():
                 calc2.CELLS[c['replay']['cell']](chk, None, **c['replay']['kwargs'])
+        elif c.get('fn') in ('attributable_community_risk', 'population_attributable_fraction') and 'args' in c:
+            check_acr_paf(chk, None, *c['args'])
         elif 'fn' in c and 'args' in c:
             check_table(chk, None, c['fn'], tuple(c['args']), alpha, z)
         elif 'table' in c:
@@ -368,7 +472,8 @@ def replay(rec):
             fr = pd.DataFrame(c['frame'])
             if 'index' in fr.columns:
                 fr = fr.set_index('index')
-            check_frame(chk, None, c['cls'], fr, c['ref'], alpha, z, positional=c.get('constructed') == 'positional')
+            check_frame(chk, None, c['cls'], fr, c['ref'], alpha, z, positional=c.get('constructed') == 'positional',
+                        ref_type=c.get('ref_type'), kinds=c.get('kinds'))
         else:
             print('  (case not stored in full; rerun with the recorded seed)')
     for d in chk.d_fail:
